@@ -15,7 +15,7 @@ import numpy
 
 from .. import compat  # noqa: F401
 from ..core import Violation, require, digest, close
-from ..env import UnscriptedDraw
+from ..env import UnscriptedDraw, TWO53
 from ..explore import explore, Chooser
 from ..fix import prov_pgmat
 from ..ref import selection as R
@@ -79,44 +79,92 @@ def designs_A(tier, mate):
     return d
 
 
-def decisions_A(key, tier, seed):
-    """decision vectors (python lists) + dtype for non-mate classes"""
+CURATED6 = {   # quick tier, 6-slot designs: a covering list (tiling remainder 0 / >0, ties, zeros, unequal counts)
+    "subset": [1, 2, 3],
+    "integer": [[1, 2, 3], [2, 0, 1], [1, 1], [3, 1], [0, 2, 2]],
+    "binary": [[1, 1, 1], [1, 0, 1, 1], [1, 1]],
+    "real": [[1, 2, 3], [1, 1, 1], [0, 1, 2], [3, 1]],
+}
+
+
+def decisions_A(key, tier, seed, slots=1):
+    """decision vectors (python lists) + dtype for non-mate classes; the 6-slot designs get the complete lists in the
+    thorough tier and a curated covering list in the quick tier"""
     enc = CFG[key][1]
     T = tier == "thorough"
+    big = slots >= 6
     out = []
     if enc == "subset":
         lab = SUBSET_LABELS[seed % 3]
-        for k in (1, 2, 3, 4) + ((5,) if T else ()):
+        ks = CURATED6["subset"] if (big and not T) else (1, 2, 3, 4) + ((5,) if T else ())
+        for k in ks:
             out.append((list(lab[:k]), "int64"))
-        out.append((sorted(lab[:3]), "int32"))
+        if not big:
+            out.append((sorted(lab[:3]), "int32"))
     elif enc == "binary":
+        if big and not T:
+            return [(v, "bool" if i % 2 else "int64") for i, v in enumerate(CURATED6["binary"])]
         for n in (1, 2, 3, 4):
             for v in itertools.product((0, 1), repeat=n):
                 if any(v):
                     out.append((list(v), "bool" if (sum(v) + n) % 2 else "int64"))
     elif enc == "integer":
+        if big and not T:
+            return [(v, "int64") for v in CURATED6["integer"]]
         for n in (1, 2, 3):
             for v in itertools.product((0, 1, 2, 3), repeat=n):
                 if any(v):
                     out.append((list(v), "int64"))
-        if T:
+        if T and not big:
             for v in itertools.product((0, 1, 2), repeat=4):
                 if any(v) and max(v) == 2:
                     out.append((list(v), "int64"))
     else:
         sc = REAL_SCALE[seed % 3]
+        if big and not T:
+            out = [([x * sc for x in v], "float64") for v in CURATED6["real"]]
+            out.append(([1e-9, 1.0, 1e9], "float64"))
+            return out
         for n in (1, 2, 3):
             for v in itertools.product((0, 1, 2, 3), repeat=n):
-                if any(v) and (T or numpy.gcd.reduce(v) == 1):
+                if any(v) and numpy.gcd.reduce(v) == 1:
                     out.append(([x * sc for x in v], "float64"))
         out.append(([1e-9, 1.0, 1e9], "float64"))
         out.append(([1e9, 1e-9, 1.0, 1.0], "float64"))
         out.append(([0.1, 0.2, 0.3, 0.4], "float64"))
-        if T:
+        if T and not big:
             for v in itertools.product((0, 1, 2), repeat=4):
-                if any(v) and max(v) == 2:
+                if any(v) and max(v) == 2 and numpy.gcd.reduce(v) == 1:
                     out.append(([x * sc for x in v], "float64"))
     return out
+
+
+def sus_menu_A(tier, slots):
+    """SUS offsets j (offset = d*j*2^-53): all eight in small designs, four (mid, both extremes, a quarter) at 6 slots"""
+    return R.SUS_J if slots < 6 else (2 ** 52, 0, TWO53 - 1, 2 ** 51)
+
+
+def _estimate(enc, decn, c, p, noff):
+    """rough number of executions of one unit (only used to balance shards)"""
+    import math
+    s = c * p
+    if enc == "subset":
+        cnt = [s // len(decn) + (1 if i < s % len(decn) else 0) for i in range(len(decn))]
+        nch = math.comb(len(decn), s % len(decn))
+    elif enc == "binary":
+        k = sum(1 for v in decn if v)
+        cnt = [s // k + (1 if i < s % k else 0) for i in range(k)]
+        nch = math.comb(k, s % k)
+    else:
+        tot = float(sum(decn))
+        cnt = [int(round(s * v / tot)) for v in decn if v]
+        nch = 1 if enc == "real" else min(20, math.comb(int(sum(decn)), s % int(sum(decn))))
+    arr = math.factorial(max(s, sum(cnt)))
+    for x in cnt:
+        arr //= max(1, math.factorial(x))
+    arr = max(1, min(arr, math.factorial(s)))
+    dup = sum(max(0, x - 1) for x in cnt)
+    return int(arr * nch * noff * (1 + 2 * min(dup, 3)) * (1 if s <= 2 else (2 if s <= 4 else 4))) + 5
 
 
 def xmaps_A(tier):
@@ -166,22 +214,50 @@ def decisions_A_mate(key, nx, tier, seed):
 def shards(tier, seed):
     out = [("X",)]                                    # cross-map index generators
     # ---- part A
+    target = 12000 if tier == "quick" else 30000
+    units = []
     for key in ("Subset", "Integer", "Binary", "Real"):
-        decs = decisions_A(key, tier, seed)
+        enc = CFG[key][1]
         for (c, p) in designs_A(tier, False):
-            s = c * p
-            step = {1: 400, 2: 200, 3: 60, 4: 20, 6: 3}.get(s, 2)
-            if key in ("Subset",):
-                step = max(1, step // 2)
-            for i in range(0, len(decs), step):
-                out.append(("A", key, c, p, decs[i:i + step], None))
+            sl = c * p
+            for (decn, dt) in decisions_A(key, tier, seed, sl):
+                menu = sus_menu_A(tier, sl) if enc == "real" else None
+                if enc == "real" and sl >= 6:
+                    for j in menu:                       # one unit per offset: partitions the answer tree exactly
+                        units.append((_estimate(enc, decn, c, p, 1), (key, c, p, decn, dt, None, (j,), None)))
+                else:
+                    e = _estimate(enc, decn, c, p, len(menu) if menu else 1)
+                    if e > 2 * target:
+                        nsplit = 4
+                        for part in range(nsplit):
+                            units.append((e // nsplit, (key, c, p, decn, dt, None, menu, (part, nsplit))))
+                    else:
+                        units.append((e, (key, c, p, decn, dt, None, menu, None)))
+    cur, acc = [], 0
+    for e, u in sorted(units, key=lambda eu: (-eu[0], repr(eu[1]))):
+        cur.append(u)
+        acc += e
+        if acc >= target:
+            out.append(("A", cur))
+            cur, acc = [], 0
+    if cur:
+        out.append(("A", cur))
+    units = []
     for key in ("SubsetMate", "IntegerMate", "BinaryMate", "RealMate"):
         for (ntaxa, nparent, uniq, rows) in xmaps_A(tier):
             decs = decisions_A_mate(key, len(rows), tier, seed)
             for c in designs_A(tier, True):
-                step = {1: 200, 2: 60, 3: 12, 4: 3}[c]
-                for i in range(0, len(decs), step):
-                    out.append(("A", key, c, nparent, decs[i:i + step], rows))
+                for (decn, dt) in decs:
+                    units.append((6 ** min(c, 3) // 3 + 2, (key, c, nparent, decn, dt, rows, None, None)))
+    cur, acc = [], 0
+    for e, u in units:
+        cur.append(u)
+        acc += e
+        if acc >= target // 2:
+            out.append(("A", cur))
+            cur, acc = [], 0
+    if cur:
+        out.append(("A", cur))
     # ---- part B
     covered, uncovered = discover()
     out.append(("I",))
@@ -286,14 +362,15 @@ def cases_B_MO(info, ci, tier):
 
 # --------------------------------------------------------------------------------------
 # Part A
-def run_A(ctx, key, ncross, nparent, decn, dtype, xmap, kind, nm, npg, answers=None, seed=None, sus_menu=None, axis_budget="auto"):
+def run_A(ctx, key, ncross, nparent, decn, dtype, xmap, kind, nm, npg, answers=None, seed=None, sus_menu=None, axis_budget="auto", split=None):
     name, enc, mate = CFG[key]
     cls = _cfg_cls(key)
     seed = ctx.seed if seed is None else seed
     pg = _pgmat(seed)
     xmap_arr = None if xmap is None else numpy.array(xmap, dtype="int64")
     case_base = dict(part="A", key=key, ncross=ncross, nparent=nparent, decn=list(decn), dtype=dtype,
-                     xmap=None if xmap is None else [list(r) for r in xmap], kind=kind, nmating=nm, nprogeny=npg, seed=seed)
+                     xmap=None if xmap is None else [list(r) for r in xmap], kind=kind, nmating=nm, nprogeny=npg, seed=seed,
+                     sus_menu=None if sus_menu is None else list(sus_menu))
     nm_a = nm if isinstance(nm, int) else numpy.array(nm, dtype="int64")
     np_a = npg if isinstance(npg, int) else numpy.array(npg, dtype="int64")
 
@@ -332,6 +409,9 @@ def run_A(ctx, key, ncross, nparent, decn, dtype, xmap, kind, nm, npg, answers=N
     if answers is not None:
         ch = Chooser(answers)
         it = [(ch, run(ch))]
+    elif split is not None:
+        part, nsplit = split
+        it = explore(run, root_filter=lambda i: i % nsplit == part, yield_root=(part == 0))
     else:
         it = explore(run)
     for ch, res in it:
@@ -968,11 +1048,11 @@ def run_shard(spec, ctx):
     if spec[0] == "X":
         run_X(ctx)
     elif spec[0] == "A":
-        _, key, c, p, decs, xmap = spec
-        for i, (decn, dtype) in enumerate(decs):
-            kind = "Generator" if (i + c + p) % 2 == 0 else "RandomState"
-            nm, npg = ((1, 2), (2, 1), ([1 + (j % 2) for j in range(c)], 1), (3, [2 - (j % 2) for j in range(c)]))[(i + c) % 4]
-            run_A(ctx, key, c, p, decn, dtype, xmap, kind, nm, npg)
+        for i, (key, c, p, decn, dtype, xmap, menu, split) in enumerate(spec[1]):
+            h = len(decn) + sum(1 for v in decn if v) + c + 2 * p
+            kind = "Generator" if h % 2 == 0 else "RandomState"
+            nm, npg = ((1, 2), (2, 1), ([1 + (j % 2) for j in range(c)], 1), (3, [2 - (j % 2) for j in range(c)]))[(h // 2) % 4]
+            run_A(ctx, key, c, p, decn, dtype, xmap, kind, nm, npg, sus_menu=menu, split=split)
             ctx.flag(f"A:{key}:{c}x{p}")
             ctx.flag(f"A:kind:{kind}")
             if not isinstance(nm, int) or not isinstance(npg, int):
@@ -1025,7 +1105,8 @@ def finalize(ctx, tier, seed):
 def replay(case, ctx):
     if case["part"] == "A":
         run_A(ctx, case["key"], case["ncross"], case["nparent"], case["decn"], case["dtype"], case["xmap"], case["kind"],
-              case["nmating"], case["nprogeny"], answers=case["answers"], seed=case.get("seed"))
+              case["nmating"], case["nprogeny"], answers=case["answers"], seed=case.get("seed"),
+              sus_menu=None if case.get("sus_menu") is None else tuple(case["sus_menu"]))
     elif case["part"] == "X":
         run_X(ctx)
     elif case["part"] in ("B-SO", "B-MO"):
